@@ -90,7 +90,7 @@ type Query {
 }
 
 type Mutation {
-  inc(by: Int = 1): Int
+  inc(by: Int = 1, step: Int! = 1): Int
   set(v: String, s: Int): A
   must: Int!
   other: B
